@@ -47,3 +47,17 @@ Theorem C16_empty_roundtrip :
   to_json ps_empty_set = JObj [] /\ from_json (JObj []) = (ps_empty_set, false).
 Proof. split; reflexivity. Qed.
 Print Assumptions C16_empty_roundtrip.
+
+(* ---- the fields of a key in any order (the reader sorts them: FieldList.Sort) ---- *)
+From Coq Require Import Permutation.
+From SMD Require Import Model.Order Proofs.KeyOrder.
+Theorem C16_key_fields_in_any_order :
+  forall a b : fieldlist, NoDup (map fst a) -> Permutation a b -> fl_sort a = fl_sort b.
+Proof. exact key_field_order_irrelevant. Qed.
+Print Assumptions C16_key_fields_in_any_order.
+
+Theorem C16_canonical_key_is_a_fixed_point :
+  forall a : fieldlist, NoDup (map fst a) -> fl_sort (fl_sort a) = fl_sort a.
+Proof. exact key_canonical_fixed. Qed.
+Print Assumptions C16_canonical_key_is_a_fixed_point.
+
